@@ -243,6 +243,27 @@ def a3_query(prog, rep, f):
     rep.check(not problems, "A3-canonical", "%s: presigned query string self-consistency" % f.name, f.loc, "; ".join(problems) or "ok", function=f.name, construct="canonical")
 
 
+def a4_pure(prog, rep):
+    """A signature is a function of the call's arguments and the clock sample only: the signing code keeps no state
+    between calls (a cached key or scope would make the result depend on call history)."""
+    u = prog.unit(UNIT)
+    muts = [g for g in u.globals if g.get("file") == UNIT and not g.get("const") and g.get("isdef")]
+    rep.check(not muts, "A4-stateless", "aws_sign.c defines no mutable file-scope or static-local state", UNIT,
+              "%s" % [(g["name"], g["loc"]) for g in muts], function="aws_sign.c", construct="static-state")
+    wr = []
+    for f in u.funcs:
+        if f.file != UNIT:
+            continue
+        for e in f.all_elems():
+            if (e.is_assign or e.is_incdec):
+                r = root_var(norm(e.kid(0)))
+                if r is not None:
+                    d = [x for x in f.all_elems() if x.cls == "DeclRefExpr" and x.decl and x.decl.get("id") == r[2]]
+                    if d and d[0].decl.get("kind") in ("global", "staticlocal"):
+                        wr.append(e)
+    rep.check(not wr, "A4-stateless", "no signing function writes a global or static variable", UNIT, "%s" % [e.loc for e in wr], function="aws_sign.c", construct="static-write")
+
+
 def run(tier):
     rep = report.Report("C19", tier,
         "Decided: one clock sample formatted twice in UTC (A1); the HMAC key chain and the string-to-sign template of aws_sign with "
@@ -252,10 +273,16 @@ def run(tier):
         "is returned, query parameters sorted and returned unchanged plus the signature (A3). Error paths are C14's. "
         "Not decided: HMAC/SHA-256 values (C01), percent-encoding (the interface does none).",
         trusted=["strftime/gmtime_r", "HMAC_SHA256_Buf/SHA256_Buf/hexify (C01, C17)"])
-    prog = ir.Program([UNIT], cdb.HOST)
+    prog = ir.Program([UNIT, "alg/sha256.c", "alg/sha1.c", "alg/md5.c"], cdb.HOST)
     rep.add_stats(prog)
     u = prog.unit(UNIT)
     a2(prog, rep)
+    a4_pure(prog, rep)
+    # the signature is HMAC-SHA256 all the way down: the spec-fixed HMAC/SHA-256 structure is part of this property's
+    # necessary conditions (rules shared with C01)
+    from . import c01
+    c01.sha256(prog, rep)
+    c01.k2_k3_k6(prog, rep)
     variants = {"aws_sign_s3_headers": "hdr", "aws_sign_svc_headers": "hdr", "aws_sign_dynamodb_headers": "hdr", "aws_sign_s3_querystr": "qs"}
     for name, kind in variants.items():
         f = u.func(name)
